@@ -708,3 +708,16 @@ package cache
 //@   loop 1 invariant soa != nil && inst(expires) <= inst(soa.expires)
 //@   loop 1 invariant forall j int :: {proofEntries[j]} 0 <= j && j < rangeidx ==> proofEntries[j] != nil && inst(expires) <= inst(proofEntries[j].expires)
 //@   assert at call (time.Time).Sub#1: arg0 == expires && arg1 == now
+//@
+//@ # ---- C13: the retry after an expired backoff is led by ONE probe per failed authority: the probe key of a request
+//@ # is the closest EXPIRED covering zone's key whenever there is one - whatever the request's ECS audience - and only
+//@ # otherwise the expired exact question's key; while any exact or covering state is still active there is no probe key
+//@ func (*FailureCache).RetryKey
+//@   abstract
+//@   nosafety all pre
+//@   assert at return#2: !result1
+//@   assert at return#3: !result1 && activeZone
+//@   assert at return#4: result1 && !activeZone && hasClosestZoneExpired && result0 == closestZoneExpired
+//@   assert at return#5: result1 && !activeZone && !hasClosestZoneExpired && hasExactExpired && result0 == exactExpired
+//@   assert at return#6: !result1 && !activeZone && !hasClosestZoneExpired && !hasExactExpired
+//@   assert at call middleware/cache.walkFailureZones#1: arg0 == key.Question.Name
